@@ -33,10 +33,18 @@ CHECKS = {
     "C06": ("spec/HoldemProps.tla C06_* + liveness Terminates under WF in MCHoldem",
             "Single wait point, expected step succeeds, street order, result iff closed, closed is final; termination as liveness on the "
             "model and as bounded non-progress on every real trace; Start defects singly and in pairs."),
+    "C15": ("spec/ViewProps.tla FailedView on every recorded state x every seat + observer, with a generic card-symbol leak scan",
+            "Deck and burned cards never in a view; other players' hole cards and evaluations hidden before the close, folded ones after it; the "
+            "viewer's own seat and all public fields identical to the full state; every card symbol found anywhere in the view's JSON is public. "
+            "MCViews checks the view operator on every reachable model state."),
     "C16": ("spec/PotProps.tla C16_* on every vector fed to pot.LevelList and on every published pot list of real play",
             "Published pots: strictly increasing levels, totals from all players, eligible = non-folded who reached the level listed with "
             "the per-pot amount, strictly shrinking eligible sets, totals sum to all chips; exhaustive small-scope vectors in every "
             "insertion order and every RoundClosed/GameClosed state of real play."),
+    "C07": ("spec/ResumeTrace.tla: in-memory vs re-hydrated-from-JSON vs NativeBackend vs second run, in lock-step on real hands",
+            "Three instances driven by the same deck and script (re-hydration before every call and at every scripted cut point, the stateless "
+            "backend for every call) stay equal after every call incl. refused ones, with equal errors; the backend leaves its input untouched; "
+            "a second in-memory run is identical. In the model re-hydration is a stuttering step enabled at every wait point."),
     "C08": ("spec/SeatProps.tla C08_positions + late-joiner history tracking, on the real SeatManager's own state graph and histories",
             "Positions after every successful Next and the late-joiner rule (tracked from the join while the other seats stay put) as TLA+ "
             "predicates; MCSeat checks the precise model for all histories on 3 seats (4, 5 thorough); the real manager's reachable graph is "
